@@ -616,7 +616,9 @@ class Renderer:
                             toks += [pu(','), kw(a.split('(')[0]), pu('('), idt(a.split('(')[1][:-1], ''), pu(')')]
                         else:
                             toks += [pu(','), kw(a)]
-                    toks += self.dc(force=bool(attrs) or bool(tgt))
+                    # 'procedure <name containing function/subroutine>' without '::' is the trigger of a listed C19 finding
+                    kwname = ('function' in bname or 'subroutine' in bname) and not self.L.get('bind_kw_nocolon')
+                    toks += self.dc(force=bool(attrs) or bool(tgt) or kwname)
                     toks.append(idt(bname))
                     if tgt:
                         s = ' ' if self.L.get('spaces', 1) else ''
